@@ -1,4 +1,5 @@
 import LentilVerif.Model.Plane
+import LentilVerif.Lemmas.PlaneAlg
 import Mathlib.Analysis.Real.Sqrt
 import Mathlib.Analysis.SpecialFunctions.Trigonometric.Basic
 /-! The intended instantiation `K = ℂ`, `R = ℝ` of the model's scalar classes, for C07's phase-factor theorem. Same
@@ -10,5 +11,14 @@ open Complex
 @[reducible] noncomputable def realLikeReal : RealLike ℝ := ⟨fun n => (n : ℝ), 2 * Real.pi, Real.sqrt, fun x => |x|⟩
 @[reducible] noncomputable def cxLikeComplex : CxLike ℂ ℝ :=
   ⟨fun t => Complex.exp ((t : ℂ) * I), fun r => (r : ℂ), fun z => (starRingEnd ℂ) z, fun z n => z / (n : ℂ)⟩
+
+/-- the transmission of an array-mask plane with the explicit exponential: on each segment's mask
+`amplitude · exp(+2πi·OPD/λ)`, `0` elsewhere, summed over the segments -/
+noncomputable def planeExpT (wavelength : ℝ) (p : PlaneM ℂ ℝ) (r c : Int) : ℂ :=
+  match p.mask with
+  | .scalar _ => 0
+  | .segs S0 S1 l =>
+    sumList l (fun g => segFactor (fun o : ℝ => Complex.exp (2 * Real.pi * Complex.I * ((o : ℂ) / (wavelength : ℂ))))
+      p.amp p.opd S0 S1 g.m r c)
 
 end Lentil.PlaneC
